@@ -1677,7 +1677,9 @@ fn check_phrase_algorithms(ctx: &mut Ctx, spec: &CorpusSpec, b: &Built, rng: &mu
     for _ in 0..n_queries {
         let n = 2 + rng.usize_below(3);
         let terms: Vec<(usize, String)> = (0..n).map(|i| (i, rng.pick(&words).clone())).collect();
-        let slop = 1 + rng.below(3) as u32;
+        let slop_drawn = 1 + rng.below(3) as u32;
+        // the same terms once with the drawn slop and once exact (slop 0: sorted-merge intersections)
+        for slop in [slop_drawn, 0u32] {
         let q = Q::Phrase { f: F_BODY, terms: terms.clone(), slop };
         let case = json!({"kind": "phrase-algorithms", "corpus": spec, "query": q});
         let rq = q.real();
@@ -1726,6 +1728,7 @@ fn check_phrase_algorithms(ctx: &mut Ctx, spec: &CorpusSpec, b: &Built, rng: &mu
             }
         }
     }
+        }
 }
 
 // ---------------------------------------------------------------------------------------------
